@@ -247,7 +247,7 @@ func genFee(t *rapid.T, label string) string {
 
 var defaultWeights = map[string]int{
 	"send": 30, "cancel": 7, "reqbatch": 7, "deposit": 4, "transfer": 6, "exec": 4,
-	"tick": 2, "hb": 1, "relay": 5, "block": 24, "burst": 0, "xexec": 14, "xtick": 7, "send2": 4, "hostile": 0, "oprice": 0, "oholders": 0, "sign": 0, "byz": 0, "xround": 0, "xlag": 0, "xwhale": 0, "ss0": 0, "xbyzexec": 0,
+	"tick": 2, "hb": 1, "relay": 5, "block": 24, "burst": 0, "xexec": 14, "xtick": 7, "send2": 4, "hostile": 0, "oprice": 0, "oholders": 0, "sign": 0, "byz": 0, "xround": 0, "xlag": 0, "xwhale": 0, "ss0": 0, "xbyzexec": 0, "xbyzdep": 0,
 }
 
 // GenOps draws the operation list for a configuration.
@@ -265,7 +265,7 @@ func GenOps(t *rapid.T, cfg sim.Config, o GenOpts) []Op {
 	if o.Bursts && w["burst"] == 0 {
 		w["burst"] = 2
 	}
-	kinds := []string{"send", "cancel", "reqbatch", "deposit", "transfer", "exec", "tick", "hb", "relay", "block", "burst", "xexec", "xtick", "send2", "hostile", "oprice", "oholders", "sign", "byz", "xround", "xlag", "xwhale", "ss0", "xbyzexec"}
+	kinds := []string{"send", "cancel", "reqbatch", "deposit", "transfer", "exec", "tick", "hb", "relay", "block", "burst", "xexec", "xtick", "send2", "hostile", "oprice", "oholders", "sign", "byz", "xround", "xlag", "xwhale", "ss0", "xbyzexec", "xbyzdep"}
 	total := 0
 	for _, k := range kinds {
 		total += w[k]
@@ -433,6 +433,14 @@ func GenOps(t *rapid.T, cfg sim.Config, o GenOpts) []Op {
 			op.R = rapid.IntRange(0, 7).Draw(t, "pick")
 			op.A = genFee(t, "feepaid")
 			op.N = rapid.IntRange(0, 3).Draw(t, "mutation")
+			op.T = rapid.SampledFrom([]int64{5, 21, 61, 100000}).Draw(t, "dt")
+		case "xbyzdep":
+			op.U = rapid.IntRange(0, 2).Draw(t, "u")
+			op.C = chainGen.Draw(t, "c")
+			op.D = denomGen.Draw(t, "d")
+			op.A = genAmount(t, "amt", o.BigAmounts)
+			op.F = genFee(t, "fee")
+			op.R = rapid.IntRange(0, 7).Draw(t, "pick")
 			op.T = rapid.SampledFrom([]int64{5, 21, 61, 100000}).Draw(t, "dt")
 		case "ss0":
 			op.C = chainGen.Draw(t, "c")
